@@ -5,6 +5,7 @@ import (
 	"fmt"
 	"io"
 	"strings"
+	"sync"
 	"sync/atomic"
 	"testing"
 	"testing/synctest"
@@ -436,6 +437,32 @@ func (c *CaseC18) Eval(ob *Obs) []Finding {
 		ob.probe("second_stream_on_same_parser")
 	}
 	var out []Finding
+	if raceBuild && c.Comment != 0 {
+		// under the race detector: three goroutines parse private inputs with the callback parser at the same
+		// time (the parser keeps no state of its own, so independent inputs may be parsed concurrently)
+		texts := []string{c.Text, c.Second + "\nextra/x:\n  kcal: 1\n", "a/b:\n  kcal: 2\n\n" + c.Text}
+		want := make([]refResult, len(texts))
+		for i, tx := range texts {
+			want[i] = c.reference(tx, -1)
+		}
+		got := make([]refResult, len(texts))
+		var wg sync.WaitGroup
+		for i := range texts {
+			wg.Add(1)
+			go func(i int) {
+				defer wg.Done()
+				got[i] = c.reference(texts[i], -1)
+			}(i)
+		}
+		wg.Wait()
+		ob.probe("concurrent_parses_under_race_detector")
+		for i := range texts {
+			if fmt.Sprint(got[i]) != fmt.Sprint(want[i]) {
+				out = append(out, Finding{"C18 concurrent-parses-interfere", fmt.Sprintf("input %d parsed while two other inputs were being parsed: %v, alone: %v", i, short(fmt.Sprint(got[i]), 300), short(fmt.Sprint(want[i]), 300))})
+				break
+			}
+		}
+	}
 	for _, so := range streams {
 		if so.producerExitedAfterPolicy {
 			ob.probe("producer_exited_after_policy")
